@@ -98,17 +98,24 @@ class Build:
             # 3. property files: compiled one by one so that Print Assumptions output is attributed
             pout = os.path.join(cache, 'props_out')
             os.makedirs(pout, exist_ok=True)
-            procs = []
-            for pv in sorted(glob.glob(os.path.join(coq, 'props', 'C*.v'))):
-                pid = os.path.basename(pv)[:-2]
-                procs.append((pid, subprocess.Popen(
-                    'timeout 600 coqc -Q theories LS -Q gen LSGen -Q props LSProps props/%s.v > %s 2>&1' % (pid, os.path.join(pout, pid + '.out')),
-                    shell=True, cwd=coq)))
-            for pid, p in procs:
+            def launch(pid):
+                return subprocess.Popen(
+                    'timeout 900 coqc -Q theories LS -Q gen LSGen -Q props LSProps props/%s.v > %s 2>&1' % (pid, os.path.join(pout, pid + '.out')),
+                    shell=True, cwd=coq)
+            def collect(pid, p):
                 rcp = p.wait()
                 txt = open(os.path.join(pout, pid + '.out')).read()
                 st['props'][pid] = {'ok': rcp == 0, 'closed': txt.count('Closed under the global context'),
                                     'axioms': re.findall(r'^Axioms:\s*\n((?:.+\n)+)', txt, re.M), 'msg': txt[-1500:] if rcp != 0 else ''}
+            pids = [os.path.basename(pv)[:-2] for pv in sorted(glob.glob(os.path.join(coq, 'props', 'C*.v')))]
+            for f in glob.glob(os.path.join(coq, 'props', '*.vo')):
+                os.remove(f)
+            # C01 first: the other property files import it (C01_step / C01_histories / C01_gen_ok)
+            if 'C01' in pids:
+                collect('C01', launch('C01'))
+            procs = [(pid, launch(pid)) for pid in pids if pid != 'C01']
+            for pid, p in procs:
+                collect(pid, p)
             # 4. extraction + OCaml driver
             mdir = os.path.join(cache, 'model')
             os.makedirs(mdir, exist_ok=True)
